@@ -3,6 +3,7 @@ package auditd
 import (
 	"context"
 	"fmt"
+	"sync"
 	"time"
 
 	"github.com/elastic/go-libaudit/v2"
@@ -76,11 +77,32 @@ func (o *Auditd) Read(ctx context.Context) error {
 
 	defer reassembler.Close()
 
-	go maintainReassemblerLoop(ctx, reassembler, reassemblerInterval)
+	// Stop the Go routines started below and wait for them before
+	// returning (this runs before the deferred reassembler.Close).
+	// Otherwise they keep parsing queued audit lines and writing
+	// audit events after Read has returned to its caller.
+	workersCtx, stopWorkers := context.WithCancel(ctx)
+	var workers sync.WaitGroup
+
+	defer func() {
+		stopWorkers()
+		workers.Wait()
+	}()
+
+	workers.Add(1)
+
+	go func() {
+		defer workers.Done()
+		maintainReassemblerLoop(workersCtx, reassembler, reassemblerInterval)
+	}()
 
 	parseAuditLogsDone := make(chan error, 1)
+
+	workers.Add(1)
+
 	go func() {
-		parseAuditLogsDone <- parseAuditLogs(ctx, o.Audits, reassembler)
+		defer workers.Done()
+		parseAuditLogsDone <- parseAuditLogs(workersCtx, o.Audits, reassembler)
 	}()
 
 	staleDataTicker := time.NewTicker(staleDataCleanupInterval)
